@@ -114,6 +114,34 @@ func runC04(c *Ctx) {
 		namePool = nil
 		c04Msg(c, "limit16384", m, "")
 	}
+	// pointer ladders: record k is owned by a name of k one-octet labels whose k-1 label suffix owns record k-1,
+	// so every owner is "one label + pointer"; names up to the 127-label / 255-octet maximum, then whole names
+	// and suffixes repeated (owner and RDATA positions), which adds one more hop to the deepest chain
+	for i := 0; i < c.Scale(12, 120); i++ {
+		depth := []int{127, 127, 126, 125, 64, 100 + r.Intn(28)}[i%6]
+		m := new(dns.Msg)
+		m.SetQuestion("q.", dns.TypeNS)
+		var ladder []string
+		name := ""
+		for k := 1; k <= depth; k++ {
+			lab := string(rune('a' + r.Intn(26)))
+			if r.Chance(5) {
+				lab = []string{"\\.", "\\000", "\\255", "-", "0"}[r.Intn(5)]
+			}
+			name = lab + "." + name
+			ladder = append(ladder, name)
+			m.Answer = append(m.Answer, &dns.A{Hdr: dns.RR_Header{Name: name, Rrtype: dns.TypeA, Class: 1, Ttl: 1}, A: []byte{1, 2, 3, byte(k)}})
+		}
+		for k := 0; k < 4; k++ {
+			again := ladder[len(ladder)-1-[]int{0, 0, 1, r.Intn(len(ladder))}[k]]
+			if k%2 == 0 {
+				m.Ns = append(m.Ns, &dns.A{Hdr: dns.RR_Header{Name: again, Rrtype: dns.TypeA, Class: 1, Ttl: 1}, A: []byte{4, 3, 2, 1}})
+			} else {
+				m.Ns = append(m.Ns, &dns.NS{Hdr: dns.RR_Header{Name: "n" + fmt.Sprint(k) + ".", Rrtype: dns.TypeNS, Class: 1, Ttl: 1}, Ns: again})
+			}
+		}
+		c04Msg(c, "ladder", m, "")
+	}
 	// every (type, name field): one record of each type with names from a pool, after a question
 	t := loadSpec()
 	rounds := c.Scale(6, 60)
